@@ -293,7 +293,7 @@ func runC05(c *Ctx) {
 	c05D5(c, w, pds, pen)
 
 	// ------------------------------------------------------------ D7
-	c.Rule("C05.D7", "GATE", "an honest validator's vote marks survive a restart: the function NewVoteDB feeds the persisted records to replaces the restored (round, index) only by a newer record, ignores only older ones and counts only records of the same context (the lexicographic comparison) — otherwise a protocol-following node signs a second vote of the same kind after a restart and is slashable")
+	c.Rule("C05.D7", "GATE", "an honest validator's vote marks survive a restart and a pause (shared with C02.S4/S7/S8): the function NewVoteDB feeds the persisted records to replaces the restored (round, index) only by a newer record, ignores only older ones and counts only records of the same context (the lexicographic comparison) — otherwise a protocol-following node signs a second vote of the same kind after a restart and is slashable")
 	c.Min(1)
 	{
 		newDB := w.Fn(uconPkg, "", "NewVoteDB")
@@ -303,6 +303,9 @@ func runC05(c *Ctx) {
 		} else {
 			voteRestoreDecision(c, w, restore, w.Field(uconPkg, "VoteDB", "round"), w.Field(uconPkg, "VoteDB", "roundIndex"), w.Field(uconPkg, "VoteDB", "mark"), w.FuncObj(uconPkg, "", "VerifySignature"))
 		}
+		// … and while running: the marks are wiped only for a different context and the context never moves back
+		c02S7(c, w, newCtxCut(w))
+		c02S8(c, w, newCtxCut(w))
 	}
 
 	// ------------------------------------------------------------ D8
@@ -359,6 +362,86 @@ func runC05(c *Ctx) {
 		}
 		if n == 0 {
 			c.Undecided("staking#evidence-vote-kind-constants", token.NoPos, "no comparison of EvidenceDoubleSignV5.VoteType with a constant found in package staking")
+		}
+	}
+
+	// ------------------------------------------------------------ D9
+	c.Rule("C05.D9", "SIBLINGS", "evidence is judged in the validator set the votes were cast in: (*BlockChain).LookBackVldReaderForRound — the reader the staking module opens for a double-sign evidence — looks back by the same distance as consensus/ucon's GetLookBackBlockNumber does for the stake kinds: the protocol's StakeLookBack for ordinary votes and the same constant as the LookBackCertStake case for certificate votes. A different distance resolves the signer index in another validator set: the BLS check fails and real equivocation goes unpunished")
+	c.Min(2)
+	{
+		lr := w.Fn("core", "BlockChain", "LookBackVldReaderForRound")
+		gb := w.Fn(uconPkg, "Server", "GetLookBackBlockNumber")
+		c.sawFunc(fname(lr))
+		c.sawFunc(fname(gb))
+		lbT := w.Named("params", "LookBackType")
+		certStakeV, _ := constant.Int64Val(constant.ToInt(constOf(w, "params", "LookBackCertStake")))
+		stakeV, _ := constant.Int64Val(constant.ToInt(constOf(w, "params", "LookBackStake")))
+		var lbParam *ssa.Parameter
+		for _, prm := range gb.Params {
+			if types.Identical(prm.Type(), lbT) {
+				lbParam = prm
+			}
+		}
+		// ucon side: what is the distance under lbType == K?
+		uconDist := func(k int64) (string, bool) {
+			for _, b := range gb.Blocks {
+				is := false
+				for _, a := range atomsOf(factsAt(b)) {
+					if a.Kind == "eq" && a.Truth && a.Y != nil && lbParam != nil && stripConv(a.X) == ssa.Value(lbParam) {
+						if n, isC := constInt(a.Y); isC && n == k {
+							is = true
+						}
+					}
+				}
+				if !is {
+					continue
+				}
+				for _, in := range b.Instrs {
+					cc, ok := in.(*ssa.Call)
+					if !ok || calleeObj(cc) == nil || calleeObj(cc).Name() != "NewInt" {
+						continue
+					}
+					a := stripConv(cc.Call.Args[0])
+					if n, isC := constInt(a); isC {
+						return fmt.Sprintf("const %d", n), true
+					}
+					if f, _ := loadedField(a); f != nil {
+						return "field " + f.Name(), true
+					}
+				}
+			}
+			return "", false
+		}
+		// core side: the distance is a phi of the two cases, selected by the isCert parameter
+		var certDist, plainDist string
+		for _, b := range lr.Blocks {
+			for _, in := range b.Instrs {
+				phi, ok := in.(*ssa.Phi)
+				if !ok {
+					continue
+				}
+				var cst, fld string
+				for _, e := range phi.Edges {
+					e = stripConv(e)
+					if n, isC := constInt(e); isC && n > 0 {
+						cst = fmt.Sprintf("const %d", n)
+					} else if f, _ := loadedField(e); f != nil {
+						fld = "field " + f.Name()
+					}
+				}
+				if cst != "" && fld != "" {
+					certDist, plainDist = cst, fld
+				}
+			}
+		}
+		uc, okc := uconDist(certStakeV)
+		up, okp := uconDist(stakeV)
+		c.sites += 2
+		if !okc || !okp || certDist == "" {
+			c.Undecided(fname(lr)+"#same-look-back-distance", lr.Pos(), fmt.Sprintf("the distances could not be read (ucon certificate %q, ucon stake %q, core certificate %q, core stake %q)", uc, up, certDist, plainDist))
+		} else {
+			c.Check(fname(lr)+"#certificate-look-back-distance", lr.Pos(), uc == certDist, ifelse(uc == certDist, "both use "+uc, "the staking side looks back "+certDist+" for certificate evidence, consensus/ucon "+uc+" for LookBackCertStake: the signer index of a certificate double-sign is resolved in another validator set and the evidence is dropped"))
+			c.Check(fname(lr)+"#stake-look-back-distance", lr.Pos(), up == plainDist, ifelse(up == plainDist, "both use "+up, "the staking side looks back "+plainDist+", consensus/ucon "+up+" for LookBackStake"))
 		}
 	}
 
